@@ -405,7 +405,7 @@ func lexSpaces(c *explore.Ctx, conformance, positions bool, delta int) {
 	// sequence of ≤ 4/5 lines over blank lines shorter than, equal to and longer than the indent
 	// of the text lines, text lines at several indents, tabs
 	{
-		lineAlpha := []string{"", " ", "  ", "    ", "a", " a", "  a", "    a", "\ta", "  \t"}
+		lineAlpha := []string{"", " ", "  ", "    ", "a", " a", "  a", "    a", "\ta", "  \t", "\u00a0a", "\u3000"}
 		nl := c.Pick(5, 6)
 		sub := c.Sub("block-lines", fmt.Sprintf("every block string of ≤ %d lines over %d line shapes (blank lines of 0–4 spaces, text at indents 0, 1, 2, 4, tab-indented text, blanks with a tab), joined by LF and by CRLF, followed by a name", nl, len(lineAlpha)), oracle, "the grammar yields at least one token")
 		if sub != nil {
